@@ -14,7 +14,7 @@ MODEL_CFGS = {
         "points": [("os", 0, 1, 130), ("os", 1, 2, 130)], "evmax": [0, 0, 0, 0, 0, 0, 0, 1]},
     "mixed": {
         "tla": {"Pts": "Pts_mixed", "EvMax": "EvMax_mixed"},
-        "points": [("os", 0, 1, 130), ("bi", 0, 2, 0)], "evmax": [2, 0, 0, 0, 0, 0, 0, 2]},
+        "points": [("bi", 0, 2, 0), ("os", 0, 1, 130)], "evmax": [2, 0, 0, 0, 0, 0, 0, 2]},
 }
 
 TIMING = {"ConfirmTO": 1000, "RetryDelay": 2000, "SelectTO": 1000}
